@@ -18,6 +18,7 @@ from pyvc.main import Prop
 from pyvc.values import Fn, Obj, Opaque, PyRaise, Undecided
 from . import C14  # noqa: F401  (installs the extra Vec methods: masked_fill, clip, device)
 from . import tensors as TT
+from .C17 import region
 from .C19 import MX
 from .tensors import Vec
 
@@ -479,5 +480,46 @@ def build(tier):
                        inline=("agilerl.algorithms.ppo.PPO._get_action_and_values",),
                        requires=[], frame_fields=False, ensures=[f"eval_post_{tag.replace('-', '_')}(result)"],
                        replay={"adapter": "demos:run", "payload": {"name": "C16_demo_1"}})
-    P.uncovered += ["values of the densities (torch.distributions)", "IPPO's re-evaluation inside _learn_individual; StochasticActor.scale_action is under contract in C14"]
+    # IPPO: the same re-evaluation inside the minibatch loop of _learn_individual
+    class ActorM:
+        def __init__(self):
+            self.dist = "stale"
+
+        def call(self, ex, st, args, kwargs):
+            self.dist = ("dist-of", args[0], kwargs.get("action_mask"))
+            return (Opaque("sampled-action"), LogProb(self.dist, "sampled-action"), Opaque("entropy-of-forward"))
+
+        def getattr(self, ex, st, name):
+            if name == "action_log_prob":
+                return Fn(model=lambda ex, st, a, k: LogProb(self.dist, a[0]), name=name)
+            if name in ("train", "eval"):
+                return Fn(model=lambda ex, st, a, k: None, name=name)
+            raise Undecided(f"actor attribute {name}")
+
+    class CriticM:
+        def call(self, ex, st, args, kwargs):
+            return Squeezable(("critic", args[0]))
+
+        def getattr(self, ex, st, name):
+            if name in ("train", "eval"):
+                return Fn(model=lambda ex, st, a, k: None, name=name)
+            raise Undecided(f"critic attribute {name}")
+    BS_, OSP_ = _Tok("batch-states"), _Tok("observation-space-of-the-group")
+    P.lib["agilerl.utils.algo_utils.preprocess_observation"] = lambda ex, st, a, k: ("prepared", a[0], a[1])
+    from pyvc import front as _front16
+    _o16, _m16, _f16 = _front16.find_function("agilerl.algorithms.ippo.IPPO._learn_individual")
+
+    def ippo_reeval(log_prob, value):
+        prepared = ("prepared", BS_, OSP_)
+        return z3.BoolVal(bool(log_prob == LogProb(("dist-of", prepared, None), Opaque_act) and value == ("squeezed", ("critic", prepared))))
+    P.specns["ippo_reeval"] = ippo_reeval
+    P.contract("agilerl.algorithms.ippo.IPPO._learn_individual", variant="re-evaluation",
+               region=region("batch_states = ", "log_prob = "),
+               params={**{a_.arg: "opaque" for a_ in _f16.args.args + _f16.args.kwonlyargs},
+                       "self": (lambda ex, st, l: Obj("model.IPPO", {"device": "cpu", "normalize_images": True}, label="self")),
+                       "actor": (lambda ex, st, l: ActorM()), "critic": (lambda ex, st, l: CriticM()), "batch_states": (lambda ex, st, l: BS_),
+                       "obs_space": (lambda ex, st, l: OSP_), "batch_actions": (lambda ex, st, l: Opaque_act)},
+               requires=[], frame_fields=False, ensures=["ippo_reeval(log_prob, value)"],
+               replay={"adapter": "demos:run", "payload": {"name": "C16_demo_1"}})
+    P.uncovered += ["values of the densities (torch.distributions)", "masks at re-evaluation (known finding); StochasticActor.scale_action is under contract in C14"]
     return P
